@@ -614,7 +614,9 @@ Post(s) == IF ~HistPost THEN [none |-> TRUE] ELSE
             c2 |-> {<<id, s.c2[id]>> : id \in DOMAIN s.c2}]
 \* a block whose transactions are all valid but whose miner payout is not reward + fees (validateMinerPayouts), or which
 \* pays it out in two outputs (allowed in blocks without v2 data, forbidden with them)
-BlockDefects == IF "payout" \in Defects THEN {"payout+1", "payout-1", "payout-split"} ELSE {}
+\* payout-wrap-*: several outputs whose sum is reward + fees only modulo 2^128 (two outputs of 2^127 beside the honest one);
+\* the sum of the naturals is what the rule compares, wherever in the list the machine addition would wrap
+BlockDefects == IF "payout" \in Defects THEN {"payout+1", "payout-1", "payout-split", "payout-wrap-early", "payout-wrap-mid", "payout-wrap-last"} ELSE {}
 BlockVerdict(d) == IF d = "payout-split" /\ child < AllowH THEN "accept" ELSE "reject"
 \* the miner payout forgets the fees of the block's v1 (v2) transactions
 RECURSIVE FeesOf(_, _)
